@@ -904,7 +904,8 @@ impl Sim {
 
         // --- the kernel refuses to let the files grow (RLIMIT_FSIZE) while this store runs
         if let Some(mode) = self.pending_fsize.take() {
-            if self.cfg.mode != Mode::Crash && self.pending_crash.is_none() {
+            // (in crash runs this one store is not snapshotted: the snapshots could not be written)
+            if self.pending_crash.is_none() {
                 let _ = self.pending_fail.take();
                 let before = self.last_obs.clone().unwrap_or_else(|| self.observe());
                 let limit = self.fsize_limit(mode);
@@ -1290,11 +1291,28 @@ impl Sim {
     fn fsize_limit(&self, mode: u8) -> u64 {
         let map_len = file_len(&self.dir.join("event.map"));
         let mdb_len = file_len(&self.dir.join("lmdb").join("data.mdb"));
-        match mode % 4 {
+        if mode == 8 {
+            // a little beyond the used part of the map: the next event's room straddles the limit
+            // (a write() of it through the file descriptor would come back short), while the
+            // mapping itself can still be written
+            let mut b = [0u8; 8];
+            let used = fs::File::open(self.dir.join("event.map"))
+                .and_then(|f| std::os::unix::fs::FileExt::read_exact_at(&f, &mut b, 0))
+                .map(|_| u64::from_le_bytes(b))
+                .unwrap_or(map_len);
+            return used + 90;
+        }
+        match mode % 8 {
             0 => map_len,
             1 => mdb_len,
             2 => 8192,
-            _ => map_len.max(mdb_len),
+            3 => map_len.max(mdb_len),
+            // fractions of the index file: a rebuild (which writes a fresh, smaller index file in
+            // several commits) then runs out of room at one of its later stages
+            4 => mdb_len / 8,
+            5 => mdb_len / 4,
+            6 => mdb_len * 3 / 8,
+            _ => mdb_len * 5 / 8,
         }
     }
 
